@@ -17,7 +17,7 @@ SPEC = dict(
     props_module="Refinery.Props.C17",
     gen_module="Refinery.Gen.Sharder",
     quick=dict(cases=480, len=24, shards=4),
-    thorough=dict(cases=48000, len=40, shards=16),
+    thorough=dict(cases=16000, len=40, shards=16),
     nontrivial=nontrivial,
     rule="cases = small in-process clusters (1-5 nodes, 1-20 peer addresses): real DeterministicSharders fed permuted / "
          "duplicated / changed / empty peer lists through peer.MockPeers, real incoming+peer Routers with recording collector "
